@@ -3,7 +3,7 @@ import math
 
 import coqfmt as cf
 
-RULE = ("cases = random kernel argument arrays (1-300 units, 1-5 validation points, 1-5 classes, ~35% tied distances, "
+RULE = ("cases = random kernel argument arrays (1-300 units, 1-5 validation points -- and few units with 255..1025 validation points --, 1-5 classes, ~35% tied distances, "
         "utilities of magnitude 1e0..1e12 incl. thirds/sevenths and negative values) each as the second step of a two-call history on the same array objects rewritten in place, run through the extension "
         "rebuilt from shapley_cy.pyx on this run AND through the pure-Python reference kernel; both results compared "
         "bit for bit with their binary64 models evaluated inside Coq and with each other; plus large cases (8k..65k "
@@ -33,6 +33,14 @@ def gen(rng, tier):
             n = rng.randint(1, 15)
         cases.append({"n": n, "t": rng.randint(1, 5), "c": rng.randint(1, 5), "ties": rng.random() < 0.35,
                       "mag": rng.choice([0, 0, 3, 6, 9, 12]), "seed": rng.randrange(1 << 30), "large": False})
+    # MANY validation points (the property quantifies over any number of them): few units, hundreds of points, on both sides of
+    # the block sizes an implementation might pick (255|256|257, 511|513, 1000, 1025)
+    for k, t in enumerate([255, 256, 257, 300, 511, 513, 1000, 1025] * {"quick": 1, "search": 1, "thorough": 4}[tier]):
+        cases.append({"n": rng.randint(1, 6), "t": t, "c": rng.randint(1, 4), "ties": k % 3 == 0,
+                      "mag": rng.choice([0, 3, 9]), "seed": rng.randrange(1 << 30), "large": False})
+    for k, t in enumerate([300, 1000] * {"quick": 1, "search": 1, "thorough": 3}[tier]):
+        cases.append({"n": 2000, "t": t, "c": rng.randint(2, 5), "ties": k % 2 == 0,
+                      "mag": rng.choice([0, 6]), "seed": rng.randrange(1 << 30), "large": True})
     for k in range({"quick": 4, "search": 4, "thorough": 24}[tier]):
         n = rng.choice([8192, 20000] if tier != "thorough" else [8192, 20000, 65536])
         cases.append({"n": n, "t": rng.choice([16, 64]), "c": rng.randint(2, 6), "ties": k % 2 == 0,
@@ -139,7 +147,7 @@ def nontrivial(c, o):
 def distribution(cases, outs):
     from collections import Counter
     sizes = Counter("<16" if c["n"] < 16 else "16-99" if c["n"] < 100 else "100-300" if c["n"] <= 300 else ">=8192" for c in cases)
-    return {"units": dict(sizes), "tied": sum(1 for c in cases if c["ties"]),
+    return {"units": dict(sizes), "validation_points": dict(Counter("<=5" if c["t"] <= 5 else "16-64" if c["t"] <= 64 else ">=255" for c in cases)), "tied": sum(1 for c in cases if c["ties"]),
             "magnitudes_1e": dict(Counter(c["mag"] for c in cases)),
             "large_bit_equal": sum(1 for o in outs if isinstance(o, dict) and o.get("large") and o["bit_equal"]),
             "large_cases": sum(1 for c in cases if c["large"]),
